@@ -125,7 +125,7 @@ def chain_part(ctx, quick):
     import chainlib
     trace, stats, out = chainlib.run_histories(ctx, quick, extra_args=["-reorgs"])
     if stats is None:
-        raise vlib.CheckError("chain driver failed:\n" + out[-3000:])
+        vlib.driver_failure(ctx, out)
     ok, info = chainlib.validate(ctx, trace, "Trace_Replicas.tla", "Trace_Replicas.cfg", CHAIN_CLAUSES, "C13", chain_describe)
     rows = vlib.read_ndjson(trace)
     blocks = [x for x in rows if x.get("ev") == "Block" and not x.get("refused")]
